@@ -3,3 +3,5 @@ import G3D.Props.C02
 #print axioms G3D.Props.C02.inter_line_polygon_typed
 #print axioms G3D.Props.C02.polygon_contains_iff_hull
 #print axioms G3D.Props.C02.polyhedron_hull_subset_contains_partial
+#print axioms G3D.Props.C02.inter_flat_polyhedron_sound
+#print axioms G3D.Props.C02.polyhedron_contains_iff_hull
